@@ -5,7 +5,7 @@ from ..model import qast
 
 CELLS = ['', 'a', 'b', 'ab', 'ba', '0', '1', '2', '10', '-1', '2.5', 'x|y', 'a b', 'É', "it's", 'q"t', ',', 'NR', 'None', 'a1', ' ']
 SMALL_CELLS = ['a', 'b', 'ab', '1', '2', '10', '']
-NAME_POOL = ['name', 'age', 'x1', 'Col_3', 'home_town', 'x y', 'Dist (km)', 'q"uote', "it's", 'Total%', 'k#1', 'été', 'b_c', 'zz', 'v', 'A', 'a_', 'ID', 'x-y', '[k]', 'back\\slash', 'tab\there']
+NAME_POOL = ['name', 'age', 'x1', 'Col_3', 'home_town', 'x y', 'Dist (km)', 'q"uote', "it's", 'Total%', 'k#1', 'été', 'b_c', 'zz', 'v', 'A', 'a_', 'ID', 'x-y', '[k]', 'back\\slash', 'tab\there', '', 'NR', 'NF', 'NU']
 STR_LITS = ['', 'x', 'ab', ' ', 'a,b', 'a)b', '(', 'x, y', "it's", 'q"t', '[1]', 'É', '%', 'a1', '#', '=', ';', '$$', 'a$&b', 'US$', '$1', "$'", 'x\\\\']
 LIKE_PATS = ['%', 'a%', '%b', '_', 'a_', '%a%', 'ab', '_%', '1%', '%.%', 'x|y', '']
 
@@ -140,6 +140,8 @@ class G(object):
             return ['len', self.e_str(0)]
         if r < 0.6:
             return ['len', self.e_str(d - 1)]
+        if not self.neutral and self.rng.random() < 0.15:
+            return ['floordiv', self.e_int(d - 1, nonneg), ['int', self.rng.randrange(1, 6)]]
         op = self.rng.choice(['+', '*', '%'] if nonneg else ['+', '-', '*', '%'])
         if op == '%':
             return ['arith', '%', self.e_int(d - 1, True), ['int', self.rng.randrange(1, 6)]]
@@ -336,6 +338,10 @@ class G(object):
         if 'where' in features:
             q['where'] = self.gen_where()
         q['bare'] = rng.random() < 0.5
+        if rng.random() < 0.2:
+            # a LIMIT clause is accepted in UPDATE queries and has no effect: every input record is still emitted once
+            q['top'] = rng.randrange(0, 4)
+            q['top_kw'] = 'limit'
         return q
 
     def assign_spelling(self, j):
